@@ -51,6 +51,8 @@ def check(run):
         import timerules as T
         run.rule('TBL.cr', T.RULES['TBL.cr'])
         T.check_cr_table(run, F)
+        run.rule('PARSE.order', T.RULES['PARSE.order'])
+        T.check_parse_order(run, F)
     return run.finish(
         'other',
         'Totality: from the six parser entry points (parse and FromStr for TimeDelta, DateTime, '
